@@ -189,20 +189,32 @@ def chunks(seq, n):
 
 
 class Reporter(object):
-    """Caps the number of reports per obligation (the README asks for ~5)."""
+    """Caps the number of reports: at most ``cap`` per obligation when no family is given;
+    with families, at most ``fam_cap`` per (obligation, family) and ``3 * cap`` per obligation.
+    A family (e.g. an image mode) keeps one frequent failing family from using up the cap of
+    an obligation and hiding a different failing family."""
 
-    def __init__(self, ctx, cap=5):
+    def __init__(self, ctx, cap=5, fam_cap=3):
         self.ctx = ctx
         self.cap = cap
-        self.counts = {}
+        self.fam_cap = fam_cap
+        self.met = {}
+        self.sent = {}
 
-    def __call__(self, obligation, witness, message):
-        n = self.counts.get(obligation, 0)
-        self.counts[obligation] = n + 1
-        if n < self.cap:
+    def __call__(self, obligation, witness, message, family=None):
+        k = (obligation, family)
+        self.met[k] = self.met.get(k, 0) + 1
+        total = self.sent.get(obligation, 0)
+        if family is None:
+            ok = total < self.cap
+        else:
+            ok = self.met[k] <= self.fam_cap and total < 3 * self.cap
+        if ok:
+            self.sent[obligation] = total + 1
             self.ctx.violation(obligation, witness, message)
 
     def summary(self):
-        for obl, n in sorted(self.counts.items()):
-            if n > self.cap:
-                self.ctx.note("%s: %d failing cases met, first %d reported" % (obl, n, self.cap))
+        for obl in sorted(self.sent):
+            n = sum(v for (o, _), v in self.met.items() if o == obl)
+            if n > self.sent[obl]:
+                self.ctx.note("%s: %d failing cases met, %d reported" % (obl, n, self.sent[obl]))
